@@ -228,10 +228,11 @@ func H_C20_newlines_in_strings() {
 		bodies = append(bodies, [2]int{st, len(d.s)})
 		d.add(`"`)
 	}
+	// optional whitespace (possibly a line break) directly behind the closing quote of a string
 	if isList {
 		d.add("[")
 		str()
-		d.add(",", hWS())
+		d.add(hWS01(), ",", hWS())
 		if nondetIntRange(0, 1) == 1 {
 			d.add("{")
 			str()
@@ -242,7 +243,7 @@ func H_C20_newlines_in_strings() {
 		str()
 		d.add(":")
 		str()
-		d.add(",", hWS(), `"z"`, ":")
+		d.add(hWS01(), ",", hWS(), `"z"`, ":")
 	}
 	d.add(hBadLiteral())
 	off := len(d.s)
